@@ -9,7 +9,7 @@ let zz (r : M.z M.res) : string = res_s zs r
 let pair_s (r : (M.z * M.z) M.res) : string = res_s (fun (a, b) -> zs a ^ " " ^ zs b) r
 let then_z (first : M.z M.res) (g : M.z -> M.z M.res) : string =
   match first with M.Ok v -> zz (g v) | M.Err _ -> "-"
-let zlist (l : M.z list) : string = String.concat " " (Stdlib.List.map zs l)
+let zlist (l : M.z list) : string = Stdlib.String.concat " " (Stdlib.List.map zs l)
 
 let parse_k (t : toks) : M.kreserve =
   let slot = nz t in let avail = nz t in let b = nz t in let p = nz t in let r = nz t in let pe = nz t in
@@ -43,9 +43,9 @@ let suite_xrate (line : string) : string =
   let out =
     match op with
     | "consts" ->
-      [ String.concat " " [zs M.coq_SPOT_CUMULATIVE_INTEREST_PRECISION; zs M.coq_DRIFT_PRECISION_EXP; zs M.coq_DRIFT_SCALED_BALANCE_DECIMALS];
+      [ Stdlib.String.concat " " [zs M.coq_SPOT_CUMULATIVE_INTEREST_PRECISION; zs M.coq_DRIFT_PRECISION_EXP; zs M.coq_DRIFT_SCALED_BALANCE_DECIMALS];
         zlist M.coq_DRIFT_EXP_10; zlist M.coq_DRIFT_EXP_10_I80F48;
-        String.concat " " [zs M.coq_E_Drift_ScalingOverflow; zs M.coq_E_Drift_MathError; zs M.coq_E_Kamino_MathError;
+        Stdlib.String.concat " " [zs M.coq_E_Drift_ScalingOverflow; zs M.coq_E_Drift_MathError; zs M.coq_E_Kamino_MathError;
                            zs M.coq_E_Solend_MathError; zs M.coq_E_Solend_ReserveStale; zs M.coq_E_Anchor_InvalidNumericConversion];
         zlist M.coq_EXP_10_I80F48 ]
     | "i80" -> let x = nz t in [zz (M.i80_from_i128_checked x)]
@@ -118,6 +118,6 @@ let suite_xrate (line : string) : string =
     | "dpyth" -> let m = parse_d t in let now = nz t in let f = parse_pyth t in [pyth_s (M.drift_pyth m now f)]
     | "dswb" -> let m = parse_d t in let now = nz t in let f = parse_swb t in [swb_s (M.drift_swb m now f)]
     | _ -> failwith "bad op" in
-  String.concat " | " out
+  Stdlib.String.concat " | " out
 
 let () = register "xrate" suite_xrate
